@@ -27,7 +27,8 @@ EXPLANATION = (
     "logical type id, Thrift primitives hooked - the field id <-> logical type id tables of both are the "
     "specification's (ids agree up to 8 and differ above, 9 is reserved) and each other's inverse. A "
     "`return` guarded by a failed error predicate (a static bool helper whose every false return records "
-    "a decoder error) is an error exit of the balance rule. Decides these clauses, not value equality for "
+    "a decoder error) is an error exit of the balance rule. A binary field written from a (pointer member, "
+    "length member) pair uses the length member that the parser fills for the same pointer member. Decides these clauses, not value equality for "
     "extreme integers/strings.")
 
 PT = "src/thrift/parquet_types.c"
@@ -370,6 +371,51 @@ def balance(ctx, fn, inc, dec, rule, key_prefix):
     return n
 
 
+def _member_path(e):
+    x = e.strip_casts() if e is not None else None
+    if x is not None and x.k == "UnaryOperator" and x.op == "&":
+        x = x.c[0].strip_casts()
+    if x is None or x.k != "MemberExpr":
+        return None
+    return (x.get("rec"), x.name)
+
+
+def _binary_pairs(ctx):
+    """thrift_write_binary(enc, S.a, S.b) <-> the parser's `S.a = reader(..., &S.b)`."""
+    P = ctx.P
+    parsed = {}
+    for fn in P.funcs_in(PT):
+        for n in fn.body.walk():
+            if is_assign(n) and n.op == "=":
+                a = _member_path(n.c[0])
+                r = n.c[1].strip_casts()
+                if a is None or r is None or r.k != "CallExpr":
+                    continue
+                outs = [_member_path(x) for x in r.args() if x is not None and x.strip_casts().k == "UnaryOperator" and x.strip_casts().op == "&"]
+                outs = [o for o in outs if o is not None and o[0] == a[0]]
+                if len(outs) == 1:
+                    parsed.setdefault(a, set()).add(outs[0][1])
+    n = 0
+    for fn in P.funcs_in(PT):
+        for c in fn.calls("thrift_write_binary"):
+            args = c.args()
+            if len(args) < 3:
+                continue
+            a, b = _member_path(args[1]), _member_path(args[2])
+            if a is None or b is None:
+                continue
+            n += 1
+            key = "binary-pair|%s:%s|%s.%s" % (PT, fn.name, a[0], a[1])
+            what = "%s.%s is written with the length member the parser fills for it" % (a[0], a[1])
+            want = parsed.get(a)
+            if not want:
+                ctx.ok("R5.agree", key, P.where(c), what, "the parser does not keep these bytes (no pair to compare)", nontrivial=False)
+            else:
+                ctx.ob("R5.agree", key, P.where(c), what, b[0] == a[0] and b[1] in want,
+                       "written with %s, parser fills %s" % (b[1], sorted(want)))
+    return n
+
+
 def run(ctx):
     P = ctx.P
     ctx.clause("C13.1 writer<->parser agreement per field (id, wire type, member, presence, list element)")
@@ -380,6 +426,10 @@ def run(ctx):
     from ..rules import logicaltype
     nlt = logicaltype.check(ctx)
     ctx.floor("C13 logical type table rows", nlt, 30)
+
+    ctx.clause("C13.6 a binary field is written with the length member the parser fills for the same bytes")
+    nbin = _binary_pairs(ctx)
+    ctx.floor("C13 binary (pointer, length) pairs written", nbin, 4)
 
     # the struct-level writer/parser functions are compared pairwise; every other static helper of the
     # file (a field helper, a nested-struct helper) is expanded into its callers first
